@@ -32,6 +32,9 @@ type Config struct {
 	Trace      bool
 	PCTDepth   int
 	PCTSpan    int
+	// AsyncTimerChan: timers created through the time drop-in have the pre-Go-1.23 channel
+	// semantics (buffered channel, Stop reports false after firing, no draining).
+	AsyncTimerChan bool
 }
 
 type taskState int
@@ -694,6 +697,12 @@ func Lateness() time.Duration {
 		return time.Duration(1+s.tape.Choose(40, "late-d")) * 3 * time.Millisecond
 	}
 	return 0
+}
+
+// AsyncTimerChan reports which timer-channel semantics this run simulates.
+func AsyncTimerChan() bool {
+	s := cur
+	return s != nil && s.cfg.AsyncTimerChan
 }
 
 // Choose draws from the run's tape (for harness parties and drop-ins such as math/rand).
